@@ -399,6 +399,7 @@ where
                 z,
                 z_d,
                 z_b,
+                r_eval,
             });
         }
 
@@ -419,7 +420,7 @@ where
         vk: &Self::VerifierKey,
         commitments: impl IntoIterator<Item = &'a LabeledCommitment<Self::Commitment>>,
         point: &'a P::Point,
-        _values: impl IntoIterator<Item = G::ScalarField>,
+        values: impl IntoIterator<Item = G::ScalarField>,
         proof: &Self::Proof,
         sponge: &mut impl CryptographicSponge,
         _rng: Option<&mut dyn RngCore>,
@@ -456,7 +457,16 @@ where
             )));
         }
 
-        for (com, h_proof) in commitments.into_iter().zip(proof.iter()) {
+        let values: Vec<_> = values.into_iter().collect();
+        if values.len() != proof.len() {
+            return Err(Error::IncorrectInputLength(format!(
+                "Expected one value per proof: {} values, {} proofs",
+                values.len(),
+                proof.len()
+            )));
+        }
+
+        for ((com, value), h_proof) in commitments.into_iter().zip(values).zip(proof.iter()) {
             let row_coms = &com.commitment().row_coms;
 
             // extract each field from h_proof
@@ -467,6 +477,7 @@ where
                 z,
                 z_d,
                 z_b,
+                r_eval,
             } = h_proof;
 
             if row_coms.len() != 1 << n / 2 {
@@ -495,6 +506,11 @@ where
             // Receive the random challenge c from the verifier, i.e. squeeze
             // it from the transcript.
             let c: G::ScalarField = sponge.squeeze_field_elements(1)[0];
+
+            // The commitment to the evaluation must open to the claimed value
+            if *com_eval != (vk.com_key[0] * value + vk.h * r_eval).into() {
+                return Ok(false);
+            }
 
             // Second check from the paper (figure 6, equation (14))
             // Moved here for potential early return
